@@ -430,6 +430,18 @@ def world(draw):
 
 
 def plan(tier, seed):
+    # warm import: forked task workers inherit it. pkgcore.ebuild.processor installs SIGTERM/SIGINT handlers at
+    # import time (SIGTERM -> SystemExit); idle pool workers inheriting them survive the runner's
+    # Pool.terminate() and the run never ends, so the handlers of the runner process are put back.
+    import signal
+
+    saved = {sig: signal.getsignal(sig) for sig in (signal.SIGTERM, signal.SIGINT)}
+    import pkgcore.scripts.pclean  # noqa: F401
+    import pkgcore.test.misc  # noqa: F401
+
+    for sig, h in saved.items():
+        signal.signal(sig, h)
+
     if tier == "quick":
         return [{"task": "hyp", "examples": 450} for _ in range(12)]
     return [{"task": "hyp", "examples": 9000} for _ in range(32)]
@@ -438,7 +450,7 @@ def plan(tier, seed):
 def run_task(ctx, task, **kw):
     if task != "hyp":
         raise core.HarnessError(f"unknown task {task}")
-    core.hyp_run(ctx, world(), lambda c: run_case(ctx, c), kw["examples"], chunk=150)
+    core.hyp_run(ctx, world(), lambda c: run_case(ctx, c), kw["examples"], chunk=50)
 
 
 def replay(ctx, case):
